@@ -20,9 +20,9 @@ RULE = ("1-4 generators, programs of <=12 statements nested <=3 (Yield, TupleYie
         "carry different leading indentation per generator; vendors huawei/cisco/arista/nexus. Non-trivial: >=2 generators or >=1 nested block. Distinct: hash of the case.")
 ASSUMPTIONS = [
     "coverage and exclusivity by R3 (vf/ref/acl.py); cases where the ideal coverage and the implementation's documented winner rule disagree (known findings of C06) are skipped and counted",
-    "programs never yield rows in negated form",
+    "programs yield rows in negated form only in the dedicated scenario (a negated line owned literally by one generator and through its positive rule by another)",
 ]
-FLOORS = {"quick": {"runs": 1200, "outcome_ok": 300, "outcome_generator_error": 150, "outcome_not_exclusive": 60, "block_contexts_entered": 2000, "annotated_runs": 80, "annotated_rows": 200, "cases_with_a_silent_generator": 300, "cases_with_three_differently_written_rules": 300, "comment_rows_yielded_inside_blocks": 200, "acl_comment_lines": 3000, "rules_mentioning_interface_not_at_start": 4000, "multi_line_yields_all_inside_the_first_line": 500, "cases_with_device_rows_claimed_by_several_generators": 800},
+FLOORS = {"quick": {"runs": 1200, "outcome_ok": 300, "outcome_generator_error": 150, "outcome_not_exclusive": 60, "block_contexts_entered": 2000, "annotated_runs": 80, "annotated_rows": 200, "cases_with_a_silent_generator": 300, "cases_with_three_differently_written_rules": 300, "comment_rows_yielded_inside_blocks": 200, "acl_comment_lines": 3000, "rules_mentioning_interface_not_at_start": 4000, "multi_line_yields_all_inside_the_first_line": 500, "cases_with_device_rows_claimed_by_several_generators": 800, "cases_with_a_negated_line_owned_literally_and_through_its_positive_rule": 300, "reused_generator_object_runs": 150},
           "thorough": {"runs": 50000, "outcome_ok": 12000, "outcome_generator_error": 6000, "outcome_not_exclusive": 2500, "block_contexts_entered": 80000, "annotated_runs": 3000, "annotated_rows": 8000, "cases_with_a_silent_generator": 12000, "cases_with_three_differently_written_rules": 12000, "comment_rows_yielded_inside_blocks": 4000, "acl_comment_lines": 60000, "rules_mentioning_interface_not_at_start": 80000}}
 VENDORS = ["huawei", "cisco", "arista", "nexus"]
 HEADS = ["a", "b", "c", "interface", "router", "x", "ntp source-interface", "c passive-interface"]  # the word `interface` only makes a rule not deletable by default at its start
@@ -320,7 +320,7 @@ def exclusive_walk(tree, locals_, globals_, prefix, path=()):
     return None
 
 
-def make_case(seed, silent=False, ranked=False):
+def make_case(seed, silent=False, ranked=False, negx=False):
     rng = random.Random(seed)
     vname = rng.choice(VENDORS)
     ngen = rng.choice([1, 2, 2, 3, 4])
@@ -378,6 +378,22 @@ def make_case(seed, silent=False, ranked=False):
         donor = srng.choice([g for g in gens if g["paths"]])
         acl, _ = acl_for(srng, [tuple(x_) for x_ in donor["paths"]], "all")
         gens.insert(srng.randrange(len(gens) + 1), {"name": "GenSilent", "program": [], "paths": [], "acl": acl, "mode": "all"})
+    nrng = random.Random(seed ^ 0x9E6)
+    if negx and len(gens) >= 2:
+        # a generator owns the negated command itself (`undo lldp enable` as a line of configuration, named literally in its ACL) while
+        # another one owns the positive command, whose negated form is the same line: two generators may delete one generated line
+        from annet.vendors import registry_connector
+        pfx = registry_connector.get()[vname].reverse
+        a, b = nrng.sample(range(len(gens)), 2)
+        word, key = nrng.choice(["lldp", "stp", "nd"]), nrng.choice(KEYS)
+        row = "%s %s %s" % (pfx, word, key)
+        gens[a]["program"].append(["y", row])
+        gens[a]["paths"] = [list(x_) for x_ in ref_paths(gens[a]["program"])]
+        gens[a]["acl"] = list(gens[a]["acl"]) + [A.AclRule(nrng.choice([row, "%s %s *" % (pfx, word)]))]
+        rb_ = A.AclRule(nrng.choice(["%s %s" % (word, key), "%s *" % word, "%s ~" % word]))
+        if nrng.random() < 0.3:
+            rb_.explicit_cd, rb_.cant_delete = [True], [True]
+        gens[b]["acl"] = list(gens[b]["acl"]) + [rb_]
     if vname == "huawei" and rng.random() < 0.3:
         crng = random.Random(seed ^ 0xC0)
         for g in gens:
@@ -399,12 +415,14 @@ def add_legacy(seed, gens):
     return "legacy k1\nlegacy k2 x\n" if lrng.random() < 0.7 else "legacy k1\n"
 
 
-def check_case(seed, acc, silent=False, ranked=False):
+def check_case(seed, acc, silent=False, ranked=False, negx=False):
     from annet.generators import GeneratorError
     from annet.annlib.patching import AclNotExclusiveError, AclError
     from annet.vendors import registry_connector
     from vf import harness_gen as H
-    vname, gens, rng = make_case(seed, silent, ranked)
+    vname, gens, rng = make_case(seed, silent, ranked, negx)
+    if negx:
+        acc.count("cases_with_a_negated_line_owned_literally_and_through_its_positive_rule")
     if silent:
         acc.count("cases_with_a_silent_generator")
     if ranked:
@@ -422,7 +440,7 @@ def check_case(seed, acc, silent=False, ranked=False):
         text = render_indented(g["acl"], rng)
         texts.append(text)
         real.append(H.make_partial(g["name"], vname, text, make_run(g["program"], counter)))
-    w = {"seed": seed, "silent": silent, "ranked": ranked, "vendor": vname, "generators": [{"name": g["name"], "program": g["program"], "acl": A.render(g["acl"]), "acl_mode": g["mode"]} for g in gens]}
+    w = {"seed": seed, "silent": silent, "ranked": ranked, "negx": negx, "vendor": vname, "generators": [{"name": g["name"], "program": g["program"], "acl": A.render(g["acl"]), "acl_mode": g["mode"]} for g in gens]}
     exp = expected_outcome(gens, prefix)
     if exp[0] == "skip":
         acc.count("skipped_known_acl_mechanism")
@@ -459,6 +477,36 @@ def check_case(seed, acc, silent=False, ranked=False):
         acc.violation("C10/new-is-not-the-union", "the desired configuration is not the union of the generators' outputs (each yielded line once, under the block path it was yielded in)",
                       dict(w, expected_tree=exp[1]))
         return w
+    if exp[0] == "ok" and seed % 4 == 1:
+        # generator objects live as long as the process and serve one device after the other: objects that first ran ANOTHER program (the
+        # neighbouring generator's, possibly refused by their ACL) must give this device exactly what fresh objects give
+        phase = {"n": 0}
+
+        def switching(i):
+            first = make_run(gens[(i + 1) % len(gens)]["program"] or [["y", "other k1"]], [0])
+            second = make_run(gens[i]["program"], [0])
+
+            def run(self, device):
+                yield from (first if phase["n"] == 0 else second)(self, device)
+            return run
+        real3 = [H.make_partial(g["name"], vname, t, switching(i)) for i, (g, t) in enumerate(zip(gens, texts))]
+        try:
+            r0 = H.old_new(dev, real3, dev_text, no_acl_exclusive=True)
+        except Exception:
+            pass
+        phase["n"] = 1
+        try:
+            res3 = H.old_new(dev, real3, dev_text, no_acl_exclusive=False)
+            if res3.err is not None:
+                raise res3.err
+            got3 = ("ok", plain(res3.new))
+        except Exception as e:
+            got3 = ("exception", "%s: %s" % (type(e).__name__, str(e)[:200]))
+        acc.count("reused_generator_object_runs")
+        if got3[0] != "ok" or got3[1] != exp[1]:
+            acc.violation("C10/generator-objects-remember-an-earlier-run", "generator objects that served another device before do not give this device the union of what they yield now",
+                          dict(w, reused=list(got3), expected_tree=exp[1]))
+            return w
     if exp[0] == "ok" and seed % 3 == 0:
         # the same run with --annotate: every line carries where it was yielded; without the annotations it is the same configuration
         from annet.annlib.lib import strip_annotation
@@ -491,7 +539,7 @@ def c10_rows(tree):
 
 def run_shard(spec, acc):
     if spec["mode"] == "replay":
-        check_case(spec["witness"]["seed"], acc, silent=bool(spec["witness"].get("silent")), ranked=bool(spec["witness"].get("ranked")))
+        check_case(spec["witness"]["seed"], acc, silent=bool(spec["witness"].get("silent")), ranked=bool(spec["witness"].get("ranked")), negx=bool(spec["witness"].get("negx")))
         return
     tier, k, n = spec["tier"], spec["shard"], spec["nshards"]
     total = 4000 if tier == "quick" else 80000
@@ -504,3 +552,5 @@ def run_shard(spec, acc):
             check_case(rng.randrange(1 << 48), acc, silent=True)
         if j % 5 == 3:
             check_case(rng.randrange(1 << 48), acc, ranked=True)
+        if j % 5 == 2:
+            check_case(rng.randrange(1 << 48), acc, negx=True)
